@@ -37,7 +37,7 @@ chk = Check('C18', 'exploration',
             'tau (2) x alpha (quick: default / [0.1,0.05] / scalar; thorough: + [0.0], [0.1]) x beta (3) x all 16 (fullstress, '
             'cdiffelastic, cdiffsurface, cdiffstress); bilinear/shift clauses on '
             'profile pairs; solve() on capped minimisations; half-width on long grids.  evaluations = individual '
-            'oracle comparisons; non-trivial = gamma queries that are off-node or need a non-zero period wrap, '
+            'gamma-surface point queries + converted positions + energy-term comparisons; non-trivial = gamma queries that are off-node or need a non-zero period wrap, '
             'conversions of >= 2 positions, and energy-term comparisons whose oracle value is non-zero')
 chk.assumptions = [
     'node reproduction to 1e-8*max|E| (RBF linear solve), periodicity / route agreement to 1e-9*max|E|; off-node '
@@ -1324,7 +1324,8 @@ if __name__ == '__main__':
     cases.sort(key=lambda c: order.get(c[0], 9))
     chk.run_cases(iter(cases), batch=4)
     n = chk.notes
-    cov = {'evaluations': n.get('comparisons', 0) + n.get('energy-comparisons', 0),
+    # evaluations = every individual point query / energy-term comparison that was judged against its oracle
+    cov = {'evaluations': n.get('gamma-queries', 0) + n.get('conversion-positions', 0) + n.get('energy-comparisons', 0),
            'distinct_nontrivial': n.get('gamma-queries-nontrivial', 0) + n.get('conversion-positions-nontrivial', 0)
            + n.get('energy-comparisons-nonzero', 0),
            'calls_cases': sum(chk.counts.values())}
